@@ -3,7 +3,7 @@ import itertools
 import json
 
 import gen
-from common import realize
+from common import realize, err_name
 from common import v3s
 from props.evalcommon import py_exec, compare_stream
 from props import c15
@@ -77,11 +77,45 @@ def correspondence(ctx):
         ctx.case(json.dumps(['err', j['gates'], bits]), False)
         ctx.count('stream:malformed')
     compare_stream(ctx, 'eval', reqs)
+    from props.patcommon import pattern_correspondence
+    pattern_correspondence(ctx, ['NOT', 'AND', 'OR', 'XOR', 'NAND', 'NOR', 'NXOR', 'GT', 'LT', 'GEQ', 'LEQ'], ctx.scale(300, 3000))
+
+
+def pattern_oracle(ctx, rng, n):
+    """subcircuit pattern simulation is one of the gate-interpreting modules: `eval_pattern` against the Lean
+    `evalPattern`, which is proved (c01_pattern_simulation_denotes_bfun) to be `bfun` bit by bit"""
+    try:
+        from cirbo.minimization.subcircuit import _PatternOperations
+    except Exception as e:  # noqa: BLE001
+        ctx.count('pattern_import_failed:' + type(e).__name__)
+        return
+    nary = ['AND', 'OR', 'XOR', 'NAND', 'NOR', 'NXOR']
+    binary = ['GT', 'LT', 'GEQ', 'LEQ']
+    reqs, code = [], []
+    for _ in range(n):
+        k = rng.randint(1, 4)
+        ty = rng.choice(nary + nary + binary + ['NOT'])
+        ar = 1 if ty == 'NOT' else (2 if ty in binary else rng.choice([2, 3, 3, 4, 5]))
+        mx = (1 << (1 << k)) - 1
+        ops = [rng.randint(0, mx) for _ in range(ar)]
+        reqs.append({'op': 'pattern_eval', 'k': k, 'ty': ty, 'ops': ops})
+        try:
+            code.append({'ok': int(_PatternOperations(k).eval_pattern(list(ops), ty))})
+        except Exception as e:  # noqa: BLE001
+            code.append({'err': err_name(e)})
+        ctx.case(json.dumps(['pat', k, ty, ops]))
+    for r, a, b in zip(reqs, code, ctx.driver.ask_many(reqs)):
+        if 'ok' in b and a != b:
+            ctx.violation('pattern.wrong', f'eval_pattern({r["ops"]}, {r["ty"]}) on {r["k"]} leaves = {a}, '
+                          f'the gate function bit by bit gives {b["ok"]}', input={'pattern': r})
+        else:
+            ctx.count('pattern_ok')
 
 
 def search(ctx):
     """implementation only: every entry point's values vs the certified denotation"""
     rng = ctx.rng('search')
+    pattern_oracle(ctx, ctx.rng('search-pattern'), ctx.scale(300, 4000))
     for k in range(ctx.scale(120, 3000)):
         j, info = gen.gen_circuit(rng, max_inputs=ctx.scale(4, 6), max_gates=ctx.scale(14, 30), max_arity=6)
         j = realize(j)
